@@ -67,9 +67,9 @@ def parseScheduledTrips_checksMissingColumns : Bool := true
 /-- `parseScheduledStopTimes`: columns in declaration order (name, required): stop_id stop_sequence trip_id arrival_time departure_time stop_headsign pickup_type drop_off_type continuous_pickup continuous_drop_off shape_dist_traveled timepoint -/
 def parseScheduledStopTimes : List (List UInt8 × Bool) := [([115, 116, 111, 112, 95, 105, 100], true), ([115, 116, 111, 112, 95, 115, 101, 113, 117, 101, 110, 99, 101], true), ([116, 114, 105, 112, 95, 105, 100], true), ([97, 114, 114, 105, 118, 97, 108, 95, 116, 105, 109, 101], false), ([100, 101, 112, 97, 114, 116, 117, 114, 101, 95, 116, 105, 109, 101], false), ([115, 116, 111, 112, 95, 104, 101, 97, 100, 115, 105, 103, 110], false), ([112, 105, 99, 107, 117, 112, 95, 116, 121, 112, 101], false), ([100, 114, 111, 112, 95, 111, 102, 102, 95, 116, 121, 112, 101], false), ([99, 111, 110, 116, 105, 110, 117, 111, 117, 115, 95, 112, 105, 99, 107, 117, 112], false), ([99, 111, 110, 116, 105, 110, 117, 111, 117, 115, 95, 100, 114, 111, 112, 95, 111, 102, 102], false), ([115, 104, 97, 112, 101, 95, 100, 105, 115, 116, 95, 116, 114, 97, 118, 101, 108, 101, 100], false), ([116, 105, 109, 101, 112, 111, 105, 110, 116], false)]
 /-- `parseScheduledStopTimes`: ReadOr call sites (column, literal default; none = computed default) -/
-def parseScheduledStopTimes_readOr : List (List UInt8 × Option (List UInt8)) := []
+def parseScheduledStopTimes_readOr : List (List UInt8 × Option (List UInt8)) := [([112, 105, 99, 107, 117, 112, 95, 116, 121, 112, 101], some [48]), ([100, 114, 111, 112, 95, 111, 102, 102, 95, 116, 121, 112, 101], some [48]), ([99, 111, 110, 116, 105, 110, 117, 111, 117, 115, 95, 112, 105, 99, 107, 117, 112], some []), ([99, 111, 110, 116, 105, 110, 117, 111, 117, 115, 95, 100, 114, 111, 112, 95, 111, 102, 102], some []), ([116, 105, 109, 101, 112, 111, 105, 110, 116], some [49])]
 /-- `parseScheduledStopTimes`: decoder applied directly to a column read -/
-def parseScheduledStopTimes_decoders : List (List UInt8 × String) := [([97, 114, 114, 105, 118, 97, 108, 95, 116, 105, 109, 101], "parseGtfsTimeToDuration"), ([100, 101, 112, 97, 114, 116, 117, 114, 101, 95, 116, 105, 109, 101], "parseGtfsTimeToDuration"), ([115, 104, 97, 112, 101, 95, 100, 105, 115, 116, 95, 116, 114, 97, 118, 101, 108, 101, 100], "parseFloat64")]
+def parseScheduledStopTimes_decoders : List (List UInt8 × String) := [([97, 114, 114, 105, 118, 97, 108, 95, 116, 105, 109, 101], "parseGtfsTimeToDuration"), ([100, 101, 112, 97, 114, 116, 117, 114, 101, 95, 116, 105, 109, 101], "parseGtfsTimeToDuration"), ([112, 105, 99, 107, 117, 112, 95, 116, 121, 112, 101], "parsePickupDropOffPolicy"), ([100, 114, 111, 112, 95, 111, 102, 102, 95, 116, 121, 112, 101], "parsePickupDropOffPolicy"), ([99, 111, 110, 116, 105, 110, 117, 111, 117, 115, 95, 112, 105, 99, 107, 117, 112], "parsePickupDropOffPolicy"), ([99, 111, 110, 116, 105, 110, 117, 111, 117, 115, 95, 100, 114, 111, 112, 95, 111, 102, 102], "parsePickupDropOffPolicy"), ([115, 104, 97, 112, 101, 95, 100, 105, 115, 116, 95, 116, 114, 97, 118, 101, 108, 101, 100], "parseFloat64")]
 /-- `parseScheduledStopTimes` checks for missing required columns before reading rows -/
 def parseScheduledStopTimes_checksMissingColumns : Bool := true
 
